@@ -75,6 +75,10 @@ class Mock:
                 self.reply(conn, 200, "application/json", self.body)
             elif b == "200garbage":
                 self.reply(conn, 200, "application/json", "<html>this is not json")
+            elif b == "200badutf8":
+                # the genuine body with one Latin-1 byte inside a string: shaped like JSON, not UTF-8, so not JSON
+                raw = self.body.encode().replace(b'"', b'"caf\xe9 ', 1)
+                conn.sendall(("HTTP/1.1 200 X\r\nContent-Type: application/json\r\nContent-Length: %d\r\nConnection: close\r\n\r\n" % len(raw)).encode() + raw)
             elif b == "404json":
                 self.reply(conn, 404, "application/json", json.dumps({"errors": [{"message": "not here"}]}))
             elif b == "400text":
